@@ -80,4 +80,14 @@ func C04(c *Ctx) {
 	}
 	wg.Wait()
 	c.Programs = len(specs)
+	// every two-way conflict cell of grammars with precedence declarations (fixed + random)
+	rspecs := corpus.Fixed()
+	nr := 25
+	if c.Thorough() {
+		nr = 120
+	}
+	rspecs = append(rspecs, corpus.RandomRich(c.Seed, nr)...)
+	c.resolutionAll(y, rspecs)
+	c.Bound("cells: every two-candidate conflict cell of the emitted dense table of the fixed corpus and %d random grammars with random precedence declarations, decided against the statement's resolution rules as Horn clauses (Z3 datalog)", nr)
+	c.Explanation += " (V) for fixed and random grammars with %left/%right/%nonassoc/%prec declarations, every two-candidate conflict cell of the emitted dense table is decided by Z3's datalog engine against the resolution rules of the statement (levels and associativities taken from the specification, candidates from the Horn LALR(1) model)."
 }
